@@ -34,6 +34,24 @@ theorem C06_parse_bare (lower : Str → Str) (ci : Bool) (file : Bytes) (start :
            0, 0 + u32 (slice (slice file start 0x5C) 0 0x28) 36⟩ :=
   parse_bare lower ci file start t hmagic hok hrep hd hf hdist
 
+/-- IVFC-wrapped: level 3 starts at `roundup(0x60 + master hash size, 2^exponent)` (exponent ≤ 0x3F, magic number 0x10000);
+    listing structure, and data offset relative to `start` = that offset + filedata_offset -/
+theorem C06_parse_ivfc (lower : Str → Str) (ci : Bool) (file : Bytes) (start : Nat) (t : Tree)
+    (hmagic : (slice (slice file start 0x5C) 0 4 == [0x49, 0x56, 0x46, 0x43]) = true)
+    (hnum : u32 (slice file start 0x5C) 4 = 0x10000) (hbs : ¬ u32 (slice file start 0x5C) 0x4C > 0x3F)
+    (off : Nat) (hoff : off = roundupNat (0x60 + u32 (slice file start 0x5C) 8) (2 ^ u32 (slice file start 0x5C) 0x4C))
+    (hok : headerOK (slice file (start + off) 0x28))
+    (hrep : repDir (envOf lower ci file start off (slice file (start + off) 0x28))
+              (slice (envOf lower ci file start off (slice file (start + off) 0x28)).dm 0 0x18) t = true)
+    (hd : t.numDirs ≤ (envOf lower ci file start off (slice file (start + off) 0x28)).maxDirs)
+    (hf : t.numFiles ≤ (envOf lower ci file start off (slice file (start + off) 0x28)).maxFiles)
+    (hdist : Distinct (envOf lower ci file start off (slice file (start + off) 0x28)) t) :
+    parse lower ci file start =
+      .ok ⟨.dir [0x52, 0x4F, 0x4F, 0x54] (shapeContents (envOf lower ci file start off (slice file (start + off) 0x28)) t),
+           off, off + u32 (slice file (start + off) 0x28) 36⟩ := by
+  subst hoff
+  exact parse_ivfc lower ci file start t hmagic hnum hbs hok hrep hd hf hdist
+
 /-- opening a file gives the window `[start + data_offset + entry offset, + size)`: exactly its bytes, nothing beyond (C09) -/
 theorem C06_file_window (p : Parsed) (start : Nat) (n : Str) (off size : Nat) :
     fileWindow p start (.file n off size) = .ok (start + p.dataOffset + off, size) := rfl
